@@ -193,3 +193,17 @@ func HarnessC16TypeNames(L int) {
 	}
 	verifReach("linted")
 }
+
+// HarnessC16Docker: `uses: docker://` + L arbitrary bytes (image, optional tag).
+func HarnessC16Docker(L int) {
+	s := yScalar
+	uses := s("docker://" + verifSymString("image", L))
+	doc := yDoc(yMap(s("on"), s("push"), s("jobs"), yMap(s("j"), yMap(s("runs-on"), s("ubuntu-latest"), s("steps"), ySeq(yMap(s("uses"), uses))))))
+	verifPlace(doc, 1, 0)
+	errs := verifLintNode(doc, verifRulesNoDeprecated())
+	for _, e := range errs {
+		verifReach("diagnostic")
+		verifCheck(verifNot(verifMsgHasRawNewline(e.Message)), "raw-line-break-in-message")
+	}
+	verifReach("linted")
+}
